@@ -25,7 +25,7 @@ PROPS = {
         ],
     },
     "C02": {
-        "units": ["storage", "http", "issue", "cfgwire", "evloop", "config", "keys"],
+        "units": ["storage", "http", "issue", "cfgwire", "evloop", "config", "keys", "renew"],
         "design_ref": "DESIGN.md section 5 C02",
         "technique": "Verus function contracts over a ghost file-system map (POSIX open/write semantics in the trusted shim)",
         "text": "Deductive proof that write_file leaves exactly the given bytes in the target file for every previous content "
@@ -171,7 +171,7 @@ PROPS = {
         ],
     },
     "C03": {
-        "units": ["issue", "storage", "http", "evloop", "config", "keys", "x509time"],
+        "units": ["issue", "storage", "http", "evloop", "config", "keys", "x509time", "renew"],
         "design_ref": "DESIGN.md section 5 C03",
         "technique": "Verus call-site preconditions on the two writes of an issuance (key file, certificate file) over a ghost world; errors propagate",
         "text": "Deductive proof over the whole of request_certificate (macros expanded) that a failed attempt never writes the certificate file, "
@@ -232,7 +232,7 @@ PROPS = {
         ],
     },
     "C07": {
-        "units": ["renew", "schedule", "issue", "http", "hooks", "storage", "evloop", "config"],
+        "units": ["renew", "schedule", "issue", "http", "hooks", "storage", "evloop", "config", "ratelimit"],
         "design_ref": "DESIGN.md section 5 C07",
         "technique": "Verus function contracts over ghost counters (requests, post-operation runs, time slept since the last request)",
         "text": "Deductive proof that one task step performs exactly one request and exactly one post-operation hook run, reports success iff "
